@@ -12,6 +12,8 @@ C01.e offsets: file offsets advance by each blob's length (restore plan) and pac
 C01.g (also) metadata is applied to every restored node completely and to directories after their content (C14.i).
 C01.g restore reuses existing destination content only for exact-size regular files and keeps read-back sources
   attached to the request they were verified for (C14.f, C14.h).
+C01.h backup-side metadata wiring (see backup_metadata_rule): mode, mtime (untruncated), uid/gid/user/group, inode, links,
+  size each come from the matching fs::Metadata accessor; symlink targets from read_link(entry.path()) on the is_symlink edge.
 C01.f restore writes each blob at the offset recorded for it, taken from the read of the matching range.
 """
 import re
@@ -43,6 +45,8 @@ def run(ctx, rep):
     # restore-side necessary conditions for byte equality (decided in C14)
     n = borrow(rep, ctx, C14, lambda o: o.rule in ("C14.f", "C14.h", "C14.i"), "C01.g")
     rep.floor("C01.g", "borrowed obligations", n, 6)
+    rep.rule("C01.h", "backup records each metadata field from the matching file-system accessor; symlink targets via read_link")
+    backup_metadata_rule(ctx, rep, "C01.h")
     # ---- C01.c -------------------------------------------------------------------------------------
     ESC = prog.find1(r"^rustic_core::backend::node::escape_filename$")
     UNE = prog.find1(r"^rustic_core::backend::node::unescape_filename$")
@@ -174,3 +178,63 @@ def _first_const_int_call(body, bb, rx):
                     return e[1]
             return None
     return None
+
+
+def backup_metadata_rule(ctx, rep, R):
+    """C01.h backup-side wiring: each field of the node metadata recorded for a local file is built from exactly the
+    file-system accessor that carries that information (helper functions inlined): mode<-mode(), mtime<-modified(),
+    uid/user<-uid(), gid/group<-gid(), inode<-ino(), links<-nlink(), size<-len(); symlink targets come from read_link
+    of the entry's path; the node kind follows is_dir / is_symlink / the file type."""
+    prog = ctx.prog
+    ME = prog.bodies.get("rustic_core::backend::ignore::mapper::LocalSourceSaveOptions::map_entry")
+    if ME is None:
+        raise AnchorError("LocalSourceSaveOptions::map_entry not found")
+    WANT = {"mode": {"mode"}, "mtime": {"modified"}, "uid": {"uid"}, "gid": {"gid"}, "user": {"uid"}, "group": {"gid"}, "inode": {"ino"}, "links": {"nlink"}, "size": {"len"}}
+    ACC = re.compile(r"^std::fs::Metadata::(\w+)$|^<std::fs::Metadata as std::os::unix::fs::MetadataExt>::(\w+)$")
+    aggs = [(bi, s_) for bi, blk in enumerate(ME.blocks) for s_ in blk["s"] if s_[0] == "=" and s_[2][0] == "agg" and s_[2][1][0] == "adt" and s_[2][1][1].endswith("backend::node::Metadata")]
+    rep.require(R, "metadata-construction", len(aggs) == 1, where=ME.loc(), what="map_entry builds the node metadata once")
+    if len(aggs) != 1:
+        return
+    bi, s_ = aggs[0]
+    names = s_[2][1][3]
+    for n, o in zip(names, s_[2][2]):
+        if n not in WANT:
+            continue
+        e = flow.inline_expr(prog, flow.expr_of(ME, o, bi))
+        _, cs = flow.expr_mentions(e)
+        cs = set(cs)
+        # closures handed to adaptors inside the expression (`.and_then(|t| ..)`): their callees count too
+        for cp in set(re.findall(r"\['closure', '([^']+)'\]", repr(e))):
+            cb = prog.bodies.get(cp)
+            for fb in ([cb] + prog.closures_of(cb)) if cb is not None else []:
+                cs |= {callee(t) for _, t in fb.calls() if "callee" in t}
+        acc = set()
+        for c in cs:
+            m = ACC.search(c)
+            if m:
+                acc.add(m.group(1) or m.group(2))
+        acc -= {"is_dir", "is_file", "is_symlink", "file_type"}
+        ok = acc == WANT[n]
+        rep.check(R, f"field/{n}", ok, where=span_str(s_[3]), what=f"Metadata.{n} is built from fs::Metadata::{sorted(WANT[n])[0]}()" if ok else
+                  f"Metadata.{n} is built from {sorted(acc)} instead of {sorted(WANT[n])}: the recorded {n} is not the source's")
+        if n == "mtime":
+            trunc = sorted(c for c in cs if re.search(r"as_secs|from_second|as_second|timestamp$|::round|::trunc", c))
+            rep.check(R, "field/mtime/full-resolution", not trunc, where=span_str(s_[3]), what="the modification time is converted without truncation (SystemTime -> Timestamp)" if not trunc else f"the modification time is truncated ({trunc})")
+    TN = prog.find1(r"^rustic_core::backend::ignore::mapper::LocalSourceSaveOptions::to_node$")
+    rl = [(bb, t) for bb, t in TN.calls() if "callee" in t and callee(t) == "std::fs::read_link"]
+    fl = [(bb, t) for bb, t in TN.calls() if "callee" in t and callee(t).endswith("node::NodeType::from_link")]
+    okl = len(rl) == 1 and len(fl) == 1
+    if okl:
+        src = flow.backward_slice(TN, op_place(fl[0][1]["args"][0]))["call_sites"] if op_place(fl[0][1]["args"][0]) else set()
+        pth = flow.backward_slice(TN, op_place(rl[0][1]["args"][0]))["calls"] if op_place(rl[0][1]["args"][0]) else set()
+        okl = rl[0][0] in src and any(c.endswith("DirEntry::path") for c in pth)
+        okl = okl and only_via(TN, fl[0][0], lambda x: x[0] == "call" and x[1].endswith("Metadata::is_symlink"), True)
+    rep.check(R, "symlink-target", okl, where=TN.loc(), what="a symlink node records read_link(entry.path()), and only entries whose metadata says is_symlink() become symlinks")
+    nn = [(bb, t) for bb, t in TN.calls() if "callee" in t and callee(t).endswith("node::Node::new_node")]
+    dirs = []
+    for bb, t in nn:
+        e = flow.expr_of(TN, t["args"][1], bb)
+        if e[0] == "agg" and e[1][0] == "adt" and e[1][2] == "Dir":
+            dirs.append(bb)
+    okd = len(dirs) == 1 and only_via(TN, dirs[0], lambda x: x[0] == "call" and x[1].endswith("Metadata::is_dir"), True)
+    rep.check(R, "dir-kind", okd, where=TN.loc(), what="an entry becomes a directory node exactly on the is_dir() edge")
